@@ -419,6 +419,14 @@ class HttpProxyPlugin(HttpProtocolHandlerPlugin):
 
     # Can return None to tear down connection
     def on_client_data(self, raw: memoryview) -> None:
+        # A single read can carry more than one pipelined request,
+        # keep going until the data has been consumed.
+        remainder: Optional[memoryview] = raw
+        while remainder is not None:
+            remainder = self._on_client_data(remainder)
+
+    def _on_client_data(self, raw: memoryview) -> Optional[memoryview]:
+        """Returns bytes following a completed pipelined request, if any."""
         # For scenarios when an upstream connection was never established,
         # let plugin do whatever they wish to.  These are special scenarios
         # where plugins are trying to do something magical.  Within the core
@@ -433,7 +441,7 @@ class HttpProxyPlugin(HttpProtocolHandlerPlugin):
             for plugin in self.plugins.values():
                 o = plugin.handle_client_data(raw)
                 if o is None:
-                    return
+                    return None
                 raw = o
         elif self.upstream and not self.upstream.closed:
             # For http proxy requests, handle pipeline case.
@@ -451,7 +459,7 @@ class HttpProxyPlugin(HttpProtocolHandlerPlugin):
                     # (A request that is still being received is
                     # not an established upgrade, keep parsing it.)
                     self.upstream.queue(raw)
-                    return
+                    return None
                 if self.pipeline_request is None:
                     # For pipeline requests, we never
                     # want to use --enable-proxy-protocol flag
@@ -470,16 +478,21 @@ class HttpProxyPlugin(HttpProtocolHandlerPlugin):
                         assert self.pipeline_request is not None
                         r = plugin.handle_client_request(self.pipeline_request)
                         if r is None:
-                            return
+                            return None
                         self.pipeline_request = r
                     assert self.pipeline_request is not None
                     self._queue_request_for_upstream(self.pipeline_request)
+                    # Bytes following the request are further client data
+                    remainder = self.pipeline_request.buffer
+                    self.pipeline_request.buffer = None
                     if not self.pipeline_request.is_connection_upgrade:
                         self.pipeline_request = None
+                    return remainder
             # For scenarios where we cannot peek into the data,
             # simply queue for upstream server.
             else:
                 self.upstream.queue(raw)
+        return None
 
     @property
     def _tls_intercept_enabled(self) -> bool:
